@@ -650,6 +650,23 @@ func (e *SpecEnv) evalCall(x SCall) SV {
 		// anything that existed at function entry; expanded from the Go type (XMLName fields excluded).
 		a, b := arg(0), arg(1)
 		return SV{Term: e.deepcopy(a, b, nil, 0), Typ: boolT}
+	case "deepcopyAbove":
+		// deepcopyAbove(a, b, n): deepcopy with an explicit lower bound n for the memory the copy is made of
+		a, b, n := arg(0), arg(1), arg(2)
+		if _, inSpec := e.Cur.(*recView); inSpec {
+			e.fail("deepcopyAbove() inside a spec function")
+		}
+		ne := e.clone()
+		ne.Next0 = n.Term
+		return SV{Term: ne.deepcopy(a, b, nil, 0), Typ: boolT}
+	case "loopBound":
+		// loopBound(): the allocation counter when the enclosing loop was entered (loop invariants only):
+		// everything allocated by the iterations lies at or above it, everything allocated before below it
+		sv, ok := e.Vars["#loopbound"]
+		if !ok {
+			e.fail("loopBound() outside a loop invariant")
+		}
+		return sv
 	case "allocBound":
 		// every array/object id allocated so far is below this bound
 		return SV{Term: e.Cur.Next(), Typ: intT}
@@ -821,6 +838,22 @@ func (e *SpecEnv) evalCall(x SCall) SV {
 		}
 		ne.Next0 = b.Term
 		return SV{Term: ne.deepcopy(a, a, nil, 0), Typ: boolT}
+	case "elemOf":
+		// elemOf(p, "T"): p points into an array whose elements are of struct type T (allocation tag)
+		id, ok := x.Args[1].(SStrLit)
+		if !ok {
+			e.fail("elemOf wants a string literal type")
+		}
+		r := e.refOf(arg(0))
+		return SV{Term: fmt.Sprintf("(and ((_ is elem) %s) (= (%s (earr %s)) %d))", r, e.G.idTagUF(), r, e.G.TE.Tag(e.ResolveType(id.V))), Typ: boolT}
+	case "tagged":
+		// tagged(s, "T"): the slice s is nil or its backing array holds elements of struct type T
+		id, ok := x.Args[1].(SStrLit)
+		if !ok {
+			e.fail("tagged wants a string literal type")
+		}
+		v := arg(0)
+		return SV{Term: fmt.Sprintf("(or (= (sarr %s) 0) (= (%s (sarr %s)) %d))", v.Term, e.G.idTagUF(), v.Term, e.G.TE.Tag(e.ResolveType(id.V))), Typ: boolT}
 	case "live":
 		// live(p): p is allocated now
 		return SV{Term: fmt.Sprintf("(alloc %s %s)", e.refOf(arg(0)), e.Cur.Next()), Typ: boolT}
